@@ -16,7 +16,7 @@ use std::sync::OnceLock;
 pub const COUNTERS: &[&str] = &[
     "castles_applied", "ep_captures_applied", "promotions_applied", "captures_applied", "double_pushes",
     "ep_recorded", "ep_not_recorded_no_neighbour", "ep_recorded_capture_illegal", "rights_lost_transitions",
-    "rook_captured_at_home", "make_move_variants_compared",
+    "rook_captured_at_home", "make_move_variants_compared", "make_move_state_sibling_prefills",
 ];
 
 pub struct C02;
@@ -91,6 +91,18 @@ impl PosOracle for C02 {
             }
         }
         run.add("make_move_variants_compared", 4);
+        // output boards that hold the SAME placement as the source but another state (castling rights, en-passant
+        // state, side to move): a shortcut "the output already holds this position" keyed by placement alone
+        // would leave stale state behind
+        let sibs = prefill_siblings_of(pre);
+        for init in sibs.iter() {
+            let mut out = *init;
+            guard::lib(|| src.make_move(lm, &mut out)).map_err(|e| Finding::new("panic", "make_move panicked", e))?;
+            if out != expect {
+                return Err(Finding::new("make-move-differs", format!("after {kind}; output board held the source placement with another state"), format!("make_move into a board holding {} gives {} but make_move_new gives {} (derived == over all fields)", init, out, expect)));
+            }
+        }
+        run.add("make_move_state_sibling_prefills", sibs.len() as u64);
         if src != saved {
             return Err(Finding::new("source-modified", "", "source board changed by move application".to_string()));
         }
